@@ -53,7 +53,15 @@ def check_from_hash(cx):
     rets = [v for _, v in _I.returns(fn, cx.F)]       # through tail calls and whole-value moves as well
     r = rets[0] if len(rets) == 1 else ''
     cx.add('F-HTR', 'plus-one', r.startswith('mod_n_add(') and r.endswith(', SM9_ONE)'), 'result = (Ha mod (N-1)) + 1 computed as mod_n_add(x, 1)', fn.loc())
-    cx.add('F-HTR', 'modulus', 'SM9_N_MINUS_ONE)' in r and 'SM9_U256_N_MINUS_ONE_BARRETT_MU' in r and 'u256_sub(' in r,
+    mod_ok = False
+    if 'SM9_U256_N_MINUS_ONE_BARRETT_MU' not in r and 'SM9_N_MINUS_ONE)' in r:
+        # the difference is assembled limb by limb in a local array (the returned text stops at its memory versions): the two
+        # products and a limb subtraction are looked for as calls; that they are combined correctly is I-BARRETT / A-CARRY
+        from ..prov import const_item as _ci2, strip as _st2
+        muls = [[cn.c(a_) for a_ in G.call_args(fn, P, b_)] for b_ in G.call_blocks(fn, 'u256_mul')]
+        subs = [b_ for b_, t_ in fn.calls() if t_['fn']['k'] == 'def' and last(t_['fn']['name']) in ('u256_sub', 'overflowing_sub', 'wrapping_sub', 'borrowing_sub')]
+        mod_ok = any('SM9_U256_N_MINUS_ONE_BARRETT_MU' in ' '.join(m_) for m_ in muls) and any('SM9_N_MINUS_ONE' in m_ for ms_ in muls for m_ in ms_) and bool(subs)
+    cx.add('F-HTR', 'modulus', mod_ok or 'SM9_N_MINUS_ONE)' in r and 'SM9_U256_N_MINUS_ONE_BARRETT_MU' in r and any(x_ in r for x_ in ('u256_sub(', 'overflowing_sub(', 'wrapping_sub(', 'SubWithOverflow(')),
            'x = low256(Ha) - q*(N-1) with q estimated through the Barrett constant of N-1', fn.loc())
     # 5 big-endian 64-bit words from offsets 0,8,..,32 -> z[4-i]: the limb stores, whatever loop form fills them
     # (index loop, iter_mut().rev().enumerate(), zip with chunks_exact(8); the one-line reader getu64 is looked through)
